@@ -212,7 +212,7 @@ struct Profile { std::vector<std::string> alphabet; std::vector<Cfg> cfgs; std::
 
 static Profile profile(const std::string& name, bool T) {
     Profile p;
-    auto PS = [](uint64_t m, uint64_t tps, int h, bool c = false) { return ParamSpec{m, tps, h, c}; };
+    auto PS = [](uint64_t m, uint64_t tps, int h, int c = 0) { return ParamSpec{m, tps, h, c}; };
     if (name == "flush") {
         p.alphabet = {"qr1", "qr5", "qr6", "qr7", "aec0", "aec1", "mm1", "wb", "rotx", "act0", "act1", "act7"};
         for (uint64_t m0 : {0, 1, 2, 3}) for (uint64_t m1 : {1, 2}) for (int h : {0, 1, 2})
@@ -237,7 +237,7 @@ static Profile profile(const std::string& name, bool T) {
     } else if (name == "wellformed") {
         p.alphabet = {"qr1", "qr1s3", "qr5s3", "qr0s1", "aec0s3", "mm1s3", "mm2s1", "wb", "rotx", "rotn", "addbp", "act1", "act0"};
         p.cfgs.push_back({"m2", {PS(2, 1000000, 0), PS(1, 1000, 1, true)}, PS(3, 1000, 0, true)});
-        p.cfgs.push_back({"m0", {PS(0, 1000000, 0)}, PS(1, 1000, 0)});
+        p.cfgs.push_back({"m0", {PS(0, 1000000, 0, 2)}, PS(1, 1000, 0, 3)});   // collection parameters present but empty
         p.cfgs.push_back({"m10000_h4", {PS(10000, 1, 4), PS(2, 1, 2)}, PS(1, 1000, 0)});
         p.runs = {{"", S_MEM, 0}}; p.depth_q = 4; p.depth_t = 5;
     } else if (name == "times") {
@@ -253,6 +253,8 @@ static Profile profile(const std::string& name, bool T) {
     } else if (name == "counts") {
         p.alphabet = {"qr0s1", "qr1", "qr4", "aec1", "mm0", "mm3s2", "wb", "rotx", "rotn", "act1"};
         p.cfgs.push_back({"m2", {PS(2, 1000000, 0), PS(1, 1000, 3, true)}, PS(3, 1000, 0)});
+        p.cfgs.push_back({"m2_emptycp", {PS(2, 1000000, 0, 2), PS(1, 1000, 3, 2)}, PS(3, 1000, 0, 2)});   // collection parameters present but empty
+        p.cfgs.push_back({"m1_cp1", {PS(1, 1000000, 0, 3)}, PS(3, 1000, 0, 2)});
         p.runs = {{"", S_MEM, 0}, {"", S_MEM, 1}, {"", S_FD, 0}, {"", S_FILE, 0}}; p.depth_q = 3; p.depth_t = 4;
         if (T) { p.runs.push_back({"", S_MEM, 2}); p.runs.push_back({"", S_FILE, 1}); }
     }
